@@ -55,11 +55,11 @@ Theorem c15_add_cached_dup_any_state : forall k d s fs v, cview s k = Some v ->
 Proof. exact add_cached_dup. Qed.
 
 (* ---- the environment: a failing callback leaves the store unchanged (the assumption the clauses are read under) ---- *)
-Theorem c15_failed_callback_changes_nothing : forall s f k d,
+Theorem c15_failed_callback_changes_nothing : forall s f k d pre,
   (forall e, snd (s_load s f k) = SErr e -> fst (s_load s f k) = s)
   /\ (forall e, snd (s_add s f k d) = SErr e -> fst (s_add s f k d) = s)
-  /\ (forall e, snd (s_upd s f k d) = SErr e -> fst (s_upd s f k d) = s)
-  /\ (forall e, snd (s_upsert s f k d) = SErr e -> fst (s_upsert s f k d) = s)
+  /\ (forall e, snd (s_upd s f k d pre) = SErr e -> fst (s_upd s f k d pre) = s)
+  /\ (forall e, snd (s_upsert s f k d pre) = SErr e -> fst (s_upsert s f k d pre) = s)
   /\ (forall e, snd (s_delete s f k) = Some e -> fst (s_delete s f k) = s).
 Proof. exact failed_callback_changes_nothing. Qed.
 
@@ -137,7 +137,7 @@ Definition ex_labels := [GCall (mkJob 0 (OGet 7) []); GStep 0; GStep 0; GStep 0;
                          GCall (mkJob 1 (OUpdate 7 3) []); GStep 0; GStep 0].          (* peek, updFn: store written *)
 Example c15_ex_stale_window :
   match grun ex_cfg 0 (minit ex_cfg) ex_labels with
-  | Some (g, _) => mcache_at ex_cfg g 7 = Some (Some 5) /\ mstore_at ex_cfg g 7 = Some 10003 /\ mcommitted_at ex_cfg g 7 = Some 5
+  | Some (g, _) => mcache_at ex_cfg g 7 = Some (Some 5) /\ mstore_at ex_cfg g 7 = Some 1010003 /\ mcommitted_at ex_cfg g 7 = Some 5
   | None => False end.
 Proof. vm_compute. repeat split. Qed.
 (* and the trace of a schedule with two jobs on one key queued behind each other *)
@@ -153,7 +153,7 @@ Definition ex_seq_ops : list (C15_Model.op * list fault) :=
   [(OGet 1, []); (OUpdate 1 7, [FErr]); (OUpdate 1 7, []); (OUpsertLoad 3 4, []); (OAdd 2 5, []); (OAdd 2 6, [])].
 Example c15_ex_seq_nontrivial :
   let g := run_ops ex_seq_cfg (ginit ex_seq_cfg) ex_seq_ops in
-  cache_at ex_seq_cfg g 1 = None /\ store_at ex_seq_cfg g 1 = Some 10007          (* evicted by key 3, store updated once *)
+  cache_at ex_seq_cfg g 1 = None /\ store_at ex_seq_cfg g 1 = Some 1010007          (* evicted by key 3, store updated once *)
   /\ cache_at ex_seq_cfg g 3 = Some (Some 10004) /\ store_at ex_seq_cfg g 3 = Some 10004
   /\ cache_at ex_seq_cfg g 2 = Some (Some 10005) /\ store_at ex_seq_cfg g 2 = Some 10005.  (* the second add was a duplicate *)
 Proof. vm_compute. repeat split. Qed.
@@ -189,7 +189,20 @@ Example c15_ex_oversize_growth :
   let g1 := run_ops ex_big_cfg (ginit ex_big_cfg) [(OGet 7, [])] in
   let g2 := run_ops ex_big_cfg (ginit ex_big_cfg) [(OGet 7, []); (OUpdate 7 1203, [])] in
   cache_at ex_big_cfg g1 7 = Some (Some 1105) /\ vsize (Some 1105) = 10%nat
-  /\ store_at ex_big_cfg g2 7 = Some 11203 /\ vsize (Some 11203) = 11%nat /\ cache_at ex_big_cfg g2 7 = None.
+  /\ store_at ex_big_cfg g2 7 = Some 1011203 /\ vsize (Some 1011203) = 11%nat /\ cache_at ex_big_cfg g2 7 = None.
+Proof. vm_compute. repeat split. Qed.
+
+(* upsert-then-load on a cache miss for an existing row: the callback is handed nil, so what it answers (computed from
+   "no row": 10009) is not the row the store keeps (computed from the current row: 1010009); the handler reloads and
+   caches the stored row; when that reload fails nothing is cached *)
+Definition ex_merge_cfg := mkCfg 1 None [] [(4, 6)].
+Example c15_ex_upsert_miss :
+  let g0 := ginit ex_merge_cfg in
+  snd (fst (do_op ex_merge_cfg g0 (OUpsertLoad 4 9) []))
+    = [EvPeek 4 None; EvUpsert 4 9 None (SOk (Some 10009)); EvLoad 4 (SOk (Some 1010009)); EvSet 4 (Some 1010009)]
+  /\ cache_at ex_merge_cfg (fst (fst (do_op ex_merge_cfg g0 (OUpsertLoad 4 9) []))) 4 = Some (Some 1010009)
+  /\ cache_at ex_merge_cfg (fst (fst (do_op ex_merge_cfg g0 (OUpsertLoad 4 9) [FOk; FErr]))) 4 = None
+  /\ store_at ex_merge_cfg (fst (fst (do_op ex_merge_cfg g0 (OUpsertLoad 4 9) [FOk; FErr]))) 4 = Some 1010009.
 Proof. vm_compute. repeat split. Qed.
 
 Print Assumptions c15_case_sound.
@@ -223,3 +236,4 @@ Print Assumptions c15_ex_cached_nil.
 Print Assumptions c15_lru_oversize_write_uncached.
 Print Assumptions c15_lru_fitting_write_cached.
 Print Assumptions c15_ex_oversize_growth.
+Print Assumptions c15_ex_upsert_miss.
